@@ -50,6 +50,13 @@ impl fmt::Debug for Term {
     }
 }
 
+// neutral elements for the shortcuts of the deep form (`e + g*0` adds g to the variable list without an occurrence)
+impl From<u8> for Term {
+    fn from(n: u8) -> Self {
+        Term::Num(n.to_string())
+    }
+}
+
 impl FromStr for Term {
     type Err = String;
     fn from_str(s: &str) -> Result<Self, Self::Err> {
